@@ -35,7 +35,12 @@ def gen(ctx, rng):
         elif it % 8 < 4:
             x = np.round(x, 1)                          # ties
         zshare = float(rng.choice([0.0, 0.0, 0.1, 0.5, 0.9]))
-        nz = int(np.floor(zshare * n))
+        if zshare == 0.9:                              # the boundary itself: exactly 90% zeros is still in scope
+            n = int(rng.choice([10, 20, 30, 40]))
+            x = rng.gamma(shape, scale, size=n)
+            if dtype == "int16":
+                x = np.clip(np.round(x), 1, 32000)
+        nz = int(round(zshare * n))
         if nz:
             x[rng.choice(n, size=nz, replace=False)] = 0.0
         nd = -9999.0
@@ -83,7 +88,20 @@ def run(ctx):
     ctx.proofs(["Props/C07.v"], extra_trusted=["oracle functions log/digamma/gammainc/ndtri: libm and SciPy cython_special, values recorded per call"])
     rng = np.random.default_rng(ctx.seed)
     cases = gen(ctx, rng)
-    res, log = core.run_impl("c07_impl.py", dict(cases=cases), timeout=3000)
+    # accessor: interleaved groups (calendar month over several years) with calibration sub-windows
+    acc = []
+    for it in range(6 if ctx.thorough else 3):
+        years = int(rng.integers(6, 11))
+        t = [str(np.datetime64("2001-01-15") + np.timedelta64(30 * k, "D"))[:10] for k in range(12 * years)]
+        months = [int(s[5:7]) for s in t]
+        dt = ["int16", "float32", "int16"][it % 3]
+        cube = rng.gamma(2.0, 40.0, size=(len(t), 2, 2))
+        cube[rng.random(cube.shape) < 0.15] = 0
+        cube[rng.random(cube.shape) < 0.05] = -9999
+        cube = np.where(cube == -9999, -9999, np.round(cube))
+        win = [(None, None), ("2003-01-01", None), (None, "2005-12-31"), ("2002-06-01", "2006-06-30")][it % 4]
+        acc.append(dict(cube=cube.tolist(), dtype=dt, nodata=-9999.0, time=t, groups=months if it % 3 != 2 else None, begin=win[0], end=win[1]))
+    res, log = core.run_impl("c07_impl.py", dict(cases=cases, accessor=acc), timeout=3000)
     if res is None:
         ctx.violation("implementation run failed", dict(kind="impl-crash", log=log[-3000:]), found_input=False)
         return
@@ -115,6 +133,18 @@ def run(ctx):
         if "tables" in r:
             coq.append(coq_case(c, r, res["k06"], res["k14"]))
             meta.append(m)
+    acc_cmp = 0
+    for a, r in zip(acc, res.get("accessor", [])):
+        m = dict(n=10 ** 6, kind="accessor", dtype=a["dtype"], groups="calendar months" if a["groups"] else None, begin=a["begin"], end=a["end"])
+        if "error" in r:
+            spec_fail.append((m, "spi(groups, calibration window) raised %s" % r["error"]))
+            continue
+        acc_cmp += r["compared"]
+        if r["failures"]:
+            f = r["failures"][0]
+            spec_fail.append((dict(m, failure=f, cube=a["cube"], time=a["time"]), "spi(groups=%s, begin=%s, end=%s): group %s pixel %s at %s: SPI %d, the definition "
+                              "on the group's members inside the window gives %s" % (m["groups"], a["begin"], a["end"], f["group"], f["pixel"], f["time"], f["spi"], f["definition"])))
+    dist["accessor_group_pixel_series_compared"] = acc_cmp
     r1 = core.eval_cases("C07", "spi", PRE, coq, "check_spi", shard=10, scope="Z")
     ctx.cov["evaluations"] = len(cases)
     ctx.cov["distinct_nontrivial"] = len(set(coq))
